@@ -1,11 +1,15 @@
 import PewProofs.Imzml
+import PewProofs.ImzmlPlace
+import PewProofs.ImzmlBins
+import PewProofs.ImzmlRead
 
 /-! # C05 — property theorems (statements only depend on `PewModel.Imzml`) -/
 namespace Pew.Imzml
 
+/-! ## one spectrum: window sums -/
+
 /-- On a strictly increasing m/z axis the slice between the two `searchsorted` indices of a
-window `lo ≤ hi` sums exactly the intensities whose m/z lies in `[lo, hi)`; the slice is empty
-(`ssLeft lo ≥ ssLeft hi`) exactly when that sum ranges over no peak. -/
+window `lo ≤ hi` sums exactly the intensities whose m/z lies in `[lo, hi)`. -/
 theorem slice_eq_windowSum (mz it : List Rat) (lo hi : Rat) (hs : Incr mz)
     (hlen : it.length = mz.length) (hle : lo ≤ hi) :
     sliceSum it (ssLeft mz lo) (ssLeft mz hi) = windowSum mz it lo hi :=
@@ -15,6 +19,39 @@ example : Incr [100, 200, 300, 400] ∧ ([1, 2, 4, 8] : List Rat).length = ([100
     ∧ (150 : Rat) ≤ 300 := by
   refine ⟨?_, rfl, by norm_num⟩
   simp only [Incr]; norm_num
+
+/-- The test `idx[::2] >= idx[1::2]` of `extract_masses`: on a strictly increasing axis the slice
+between the two indices is empty exactly when NO PEAK lies in `[lo, hi)` (any `lo`, `hi`, also
+`hi < lo`).  This is about the peaks, not about the value of the sum. -/
+theorem slice_empty_iff (mz : List Rat) (lo hi : Rat) (hs : Incr mz) :
+    ssLeft mz hi ≤ ssLeft mz lo ↔ ¬ ∃ m ∈ mz, lo ≤ m ∧ m < hi := by
+  constructor
+  · intro h hc
+    have := peak_imp_ssLeft_lt hs hc
+    omega
+  · intro h
+    by_contra hc
+    exact h (ssLeft_lt_ssLeft (by omega))
+
+example : Incr [100, 200, 300, 400] ∧ ssLeft [100, 200, 300, 400] 251 ≤ ssLeft [100, 200, 300, 400] 249 := by
+  refine ⟨by simp only [Incr]; norm_num, by decide +kernel⟩
+
+/-- A window without a peak sums to zero; with strictly positive intensities the converse holds
+too (with a zero intensity inside the window it does not: `windowSum [1] [0] 0 2 = 0`). -/
+theorem window_zero_iff_no_peak (mz it : List Rat) (lo hi : Rat) (hlen : it.length = mz.length)
+    (hp : ∀ i ∈ it, 0 < i) :
+    windowSum mz it lo hi = 0 ↔ ¬ ∃ m ∈ mz, lo ≤ m ∧ m < hi := by
+  constructor
+  · intro h hc
+    have := windowSum_pos_of_peak hlen hp hc
+    linarith
+  · exact windowSum_zero_of_no_peak
+
+example : (∀ i ∈ ([1, 2, 4, 8] : List Rat), 0 < i) ∧ windowSum [1] [0] 0 2 = 0 := by
+  refine ⟨?_, by decide +kernel⟩
+  intro i hi
+  simp only [List.mem_cons, List.not_mem_nil, or_false] at hi
+  rcases hi with rfl | rfl | rfl | rfl <;> norm_num
 
 /-- `extract_masses`, one spectrum: searchsorted → zero sentinel → `reduceat` → `[::2]` → zeroing of
 empty segments gives, for EVERY list of windows (empty, one or many peaks, touching the first or
@@ -44,87 +81,314 @@ example : Incr [100, 200, 300, 400] ∧ ([1, 2, 4, 8] : List Rat).length = ([100
   refine ⟨?_, rfl⟩
   simp only [Incr]; norm_num
 
-/-- ppm and absolute widths differ only in how the width is computed: a ppm extraction is the
-absolute extraction with `w = m·ppm/10⁶`, mass by mass. -/
+/-! ## window edges -/
+
+/-- The window of a target mass `m` is `[m - w/2, m + w/2)`: it is centred on `m` and its width is
+`w`, where `w` is the absolute width or `m·ppm/10⁶` — the two kinds of width differ in nothing else. -/
+theorem window_centre_width (wd : Width) (m : Rat) :
+    ∃ lo hi, windows [m] wd = [(lo, hi)] ∧ (lo + hi) / 2 = m ∧
+      hi - lo = (match wd with
+                 | .ppm p => m * p / 1000000
+                 | .mz a => a) := by
+  refine ⟨m - halfWidth wd m, m + halfWidth wd m, rfl, by ring, ?_⟩
+  cases wd with
+  | ppm p => simp only [halfWidth]; ring
+  | mz a => simp only [halfWidth]; ring
+
+/-- the edges of a ppm window in closed form: `m·(1 ∓ ppm/(2·10⁶))` -/
+theorem ppm_window (masses : List Rat) (p : Rat) :
+    windows masses (.ppm p) = masses.map (fun m => (m * (1 - p / 2000000), m * (1 + p / 2000000))) := by
+  unfold windows
+  apply List.map_congr_left
+  intro m _
+  simp only [halfWidth, Prod.mk.injEq]
+  constructor <;> ring
+
+/-- ppm and absolute widths differ only in how the width is computed: a ppm extraction is, mass by
+mass, the absolute extraction with the width `m·ppm/10⁶` of that mass. -/
 theorem ppm_is_abs (mz it : List Rat) (masses : List Rat) (p : Rat) :
     extractSpectrum mz it (windows masses (.ppm p))
-      = extractSpectrum mz it (masses.map (fun m => (m - (m * p / 1000000) / 2, m + (m * p / 1000000) / 2)))
-    ∧ ∀ m, windows [m] (.ppm p) = windows [m] (.mz (m * p / 1000000)) := by
-  constructor
-  · simp [windows, halfWidth]
-  · intro m; simp [windows, halfWidth]
+      = masses.flatMap (fun m => extractSpectrum mz it (windows [m] (.mz (m * p / 1000000)))) := by
+  induction masses with
+  | nil => simp [windows, extractSpectrum_nil]
+  | cons m ms ih =>
+    have hw : windows (m :: ms) (.ppm p) = (m - halfWidth (.ppm p) m, m + halfWidth (.ppm p) m) :: windows ms (.ppm p) := rfl
+    rw [hw, extractSpectrum_cons', ih, List.flatMap_cons]
+    rfl
 
-/-- Placement: the pixel `[r][c]` of an image built by the loop `data[y-1, x-1] = f(spectrum)`
-holds the value of the (last) spectrum recorded at position `(x, y) = (c+1, r+1)` and is NaN when
-no spectrum was recorded there.  Any number of spectra in any order, any positions `≥ 1`. -/
-theorem placement {β} (f : Spectrum → β) (specs : List Spectrum) (r c : Nat) :
-    place f specs r c = specImage f specs r c := by
-  induction specs using List.reverseRecOn with
-  | nil => simp [place, specImage, lastAt, blank]
-  | append_singleton specs s ih =>
-    rw [place_append_one]
-    simp only [specImage, lastAt_append_one, Canvas.set]
-    by_cases h : s.y - 1 = r ∧ s.x - 1 = c
-    · simp [h]
-    · have h' : ¬ (r = s.y - 1 ∧ c = s.x - 1) := by
-        intro ⟨h1, h2⟩; exact h ⟨h1.symm, h2.symm⟩
-      simp only [h, h', if_false]
-      exact ih
+example : windows [200] (.ppm 10000) = [(199, 201)] ∧ windows [200] (.mz 2) = [(199, 201)] := by
+  constructor <;> decide +kernel
 
-/-- the extracted image: own spectrum's window sums at `[y-1][x-1]`, NaN elsewhere -/
-theorem extract_image_correct (specs : List Spectrum) (masses : List Rat) (w : Width)
-    (hs : ∀ s ∈ specs, Incr s.mz ∧ s.it.length = s.mz.length) (r c : Nat) :
-    extractImage specs masses w r c
-      = (lastAt specs r c).map (fun s => specSpectrum s.mz s.it (windows masses w)) := by
-  unfold extractImage
-  rw [placement]
-  unfold specImage
-  cases h : lastAt specs r c with
+/-! ## the external binary -/
+
+/-- `Spectrum.get_binary_data` raises (ValueError of `np.frombuffer`) exactly when the bytes that
+`read` returns — `length` of them, fewer at the end of the file — are not a whole number of
+elements. -/
+theorem read_raises_iff (bo : ByteOrder) (ibd : List UInt8) (off len : Nat) (dt : DType) :
+    getBinaryData bo ibd off len dt = none ↔ min len (ibd.length - off) % dt.width ≠ 0 := by
+  unfold getBinaryData
+  rw [frombuffer_eq_none_iff, readBytes_length]
+  have : dt.width ≠ 0 := by cases dt <;> simp [DType.width]
+  simp [this]
+
+/-- Pointwise: the array that `get_binary_data` returns has `⌊available/width⌋` elements and element
+`i` is the bit pattern of the bytes `[offset + i·width, offset + (i+1)·width)` of the `.ibd` file. -/
+theorem read_pointwise (bo : ByteOrder) (ibd : List UInt8) (off len : Nat) (dt : DType) (arr : List Nat)
+    (h : getBinaryData bo ibd off len dt = some arr) :
+    arr.length = min len (ibd.length - off) / dt.width ∧
+    ∀ i (hi : i < arr.length),
+      arr[i] = bitsOf bo ((ibd.drop (off + i * dt.width)).take dt.width) := by
+  unfold getBinaryData at h
+  obtain ⟨hw, hmod, hlen, hpt⟩ := frombuffer_some bo dt.width _ arr h
+  rw [readBytes_length] at hlen
+  refine ⟨hlen, ?_⟩
+  intro i hi
+  rw [hpt i hi, readBytes_chunk]
+  rw [readBytes_length]
+  rw [readBytes_length] at hmod
+  have h1 : i + 1 ≤ min len (ibd.length - off) / dt.width := by omega
+  calc (i + 1) * dt.width ≤ (min len (ibd.length - off) / dt.width) * dt.width := Nat.mul_le_mul_right _ h1
+    _ ≤ min len (ibd.length - off) := Nat.div_mul_le_self _ _
+
+/-- An array that lies inside the file and whose encoded length is a multiple of the element width
+is read without error, has `length / width` elements, and every element is decoded from exactly
+`width` bytes at its own offset. -/
+theorem read_in_file (bo : ByteOrder) (ibd : List UInt8) (off len : Nat) (dt : DType)
+    (hfit : off + len ≤ ibd.length) (hmul : len % dt.width = 0) :
+    ∃ arr, getBinaryData bo ibd off len dt = some arr ∧ arr.length = len / dt.width ∧
+      ∀ i (hi : i < arr.length),
+        arr[i] = bitsOf bo ((ibd.drop (off + i * dt.width)).take dt.width) ∧
+        ((ibd.drop (off + i * dt.width)).take dt.width).length = dt.width := by
+  have hmin : min len (ibd.length - off) = len := by omega
+  cases h : getBinaryData bo ibd off len dt with
+  | none =>
+    have := (read_raises_iff bo ibd off len dt).mp h
+    rw [hmin] at this
+    exact absurd hmul this
+  | some arr =>
+    obtain ⟨hl, hp⟩ := read_pointwise bo ibd off len dt arr h
+    rw [hmin] at hl
+    refine ⟨arr, rfl, hl, fun i hi => ⟨hp i hi, ?_⟩⟩
+    have hw : 0 < dt.width := by cases dt <;> simp [DType.width]
+    have h1 : i + 1 ≤ len / dt.width := by omega
+    have h2 : (i + 1) * dt.width ≤ len :=
+      le_trans (Nat.mul_le_mul_right _ h1) (Nat.div_mul_le_self _ _)
+    have h3 : (i + 1) * dt.width = i * dt.width + dt.width := Nat.succ_mul _ _
+    simp only [List.length_take, List.length_drop]
+    omega
+
+example : (4 : Nat) + 8 ≤ ([0, 0, 0, 0, 0, 0, 0x80, 0x3f, 0, 0, 0, 0x40, 0xff] : List UInt8).length ∧ 8 % DType.f32.width = 0 := by
+  decide
+
+example : getBinaryData .little [0, 0, 0, 0, 0, 0, 0x80, 0x3f, 0, 0, 0, 0x40, 0xff] 4 8 .f32 = some [0x3f800000, 0x40000000]
+    ∧ valueOf .f32 0x3f800000 = some 1 ∧ valueOf .f32 0x40000000 = some 2
+    ∧ valueOf .f64 0x4059000000000000 = some 100 ∧ valueOf .f32 0xc2c80000 = some (-100)
+    ∧ valueOf .f32 0x7fc00000 = none ∧ valueOf .f32 1 = some (1 / 2 ^ 149)
+    ∧ getBinaryData .little [1, 2, 3, 4, 5] 0 5 .u16 = none
+    ∧ getBinaryData .little [1, 2, 3, 4, 5] 3 8 .u16 = some [0x0504] := by
+  refine ⟨by decide +kernel, by decide +kernel, by decide +kernel, by decide +kernel, by decide +kernel,
+    by decide +kernel, by decide +kernel, by decide +kernel, by decide +kernel⟩
+
+/-- The bit pattern of an element determines its bytes (same width): nothing is lost between the
+file and the token the harness compares; and it fits the element's width. -/
+theorem read_bits_faithful (a b : List UInt8) (hl : a.length = b.length) :
+    (bitsOf .little a = bitsOf .little b → a = b) ∧ bitsOf .little a < 256 ^ a.length :=
+  ⟨leNat_injective a b hl, leNat_lt a⟩
+
+/-! ## the dict of spectra -/
+
+/-- `ImzML.spectra` holds, for every position, the LAST spectrum the file records there. -/
+theorem spectra_dict_lookup (file : List Spectrum) (r c : Nat) :
+    specAt (spectraDict file) r c = specAt file r c :=
+  specAt_spectraDict file r c
+
+/-- every value of the dict is a spectrum of the file, and no two values share a position -/
+theorem spectra_dict_distinct (file : List Spectrum) :
+    (∀ s ∈ spectraDict file, s ∈ file) ∧
+    (spectraDict file).Pairwise (fun a b => samePos a b = false) := by
+  refine ⟨fun s hs => mem_spectraDict hs, ?_⟩
+  induction file using List.reverseRecOn with
+  | nil => simp [spectraDict]
+  | append_singleton file s ih =>
+    rw [spectraDict_append_one]
+    exact dictSet_distinct _ _ ih
+
+/-- a file that records every position at most once ("any subset of pixels present") is its own
+dict: same spectra, same order -/
+theorem spectra_dict_of_distinct (file : List Spectrum) (h : distinctB file = true) :
+    spectraDict file = file := by
+  have := foldl_dictSet_distinct file [] (by simpa using (distinctB_iff file).mp h)
+  simpa [spectraDict] using this
+
+example : distinctB [⟨1, 1, none, [100], [1]⟩, ⟨2, 1, none, [100], [2]⟩] = true ∧
+    spectraDict [⟨0, 1, none, [], [1]⟩, ⟨2, 1, none, [], [2]⟩, ⟨0, 1, none, [], [3]⟩]
+      = [⟨0, 1, none, [], [3]⟩, ⟨2, 1, none, [], [2]⟩] := by
+  constructor <;> decide +kernel
+
+/-! ## placement -/
+
+/-- NumPy subscripts: `data[i]` on an axis of length `n` addresses element `i` for `0 ≤ i < n`,
+element `i + n` for `-n ≤ i < 0`, and raises otherwise. -/
+theorem py_subscript (n : Nat) (i : Int) :
+    (pyIndex n i = none ↔ i < -(n : Int) ∨ (n : Int) ≤ i) ∧
+    ∀ k, pyIndex n i = some k ↔
+      ((0 ≤ i ∧ i < n ∧ (k : Int) = i) ∨ (i < 0 ∧ -(n : Int) ≤ i ∧ (k : Int) = i + n)) :=
+  ⟨pyIndex_eq_none_iff n i, pyIndex_eq_some_iff n i⟩
+
+/-- Placement as the code does it, for ANY integer positions (mechanism level): the loop
+`data[y-1, x-1] = f(spectrum)` on a canvas of shape `(Y, X)` raises IndexError exactly when some
+subscript is out of bounds; otherwise the pixel `[r][c]` holds the value of the last spectrum of
+the loop whose subscripts normalise to `(r, c)` — a position 0 lands in the LAST row/column — and
+is NaN when there is none. -/
+theorem placement {β} (shape : Nat × Nat) (f : Spectrum → β) (d : List Spectrum) :
+    (place shape f d = none ↔
+      ∃ s ∈ d, pyIndex shape.1 (s.y - 1) = none ∨ pyIndex shape.2 (s.x - 1) = none) ∧
+    ∀ img, place shape f d = some img → ∀ r c, img r c = (lastAt shape d r c).map f :=
+  ⟨place_eq_none_iff shape f d, fun img h r c => place_some_pixel shape f d img h r c⟩
+
+example : (place (2, 2) (fun s => s.it) [⟨0, 1, none, [], [7]⟩]).map (fun img => tabulate (2, 2) img)
+      = some [[none, some [7]], [none, none]] ∧
+    (place (2, 2) (fun s => s.it) [⟨3, 1, none, [], [7]⟩]).isNone = true := by
+  constructor <;> decide +kernel
+
+/-- Placement under the property's hypothesis (positions 1-based and inside the image): the loop
+does not raise, the pixel `[r][c] = [y-1][x-1]` holds the value of the (last) spectrum recorded at
+position `(x, y) = (c+1, r+1)` and is NaN when no spectrum was recorded there. -/
+theorem placement_in_domain {β} (shape : Nat × Nat) (f : Spectrum → β) (d : List Spectrum)
+    (hd : InDomain shape d) :
+    ∃ img, place shape f d = some img ∧ ∀ r c, img r c = (specAt d r c).map f := by
+  cases h : place shape f d with
+  | none =>
+    obtain ⟨s, hs, hnone⟩ := (place_eq_none_iff shape f d).mp h
+    obtain ⟨hx1, hx2, hy1, hy2⟩ := hd s hs
+    rw [pyIndex_in_domain hy1 hy2, pyIndex_in_domain hx1 hx2] at hnone
+    simp at hnone
+  | some img =>
+    exact ⟨img, rfl, fun r c => by
+      rw [place_some_pixel shape f d img h r c, lastAt_eq_specAt shape d hd]⟩
+
+example : InDomain (3, 2) [⟨2, 3, none, [100], [1]⟩, ⟨1, 2, some 7, [150], [4]⟩] := by
+  rw [← inDomainB_iff]; decide +kernel
+
+/-- positions inside the image stay inside when the file is turned into the dict -/
+theorem in_domain_dict (shape : Nat × Nat) (file : List Spectrum) (h : InDomain shape file) :
+    InDomain shape (spectraDict file) :=
+  fun s hs => h s (mem_spectraDict hs)
+
+/-- An image method on a whole file (`<spectrum>` elements in file order → dict → size → canvas →
+loop): with positions inside the image it returns the shape `(Y, X)` and at `[r][c]` the value of
+the last spectrum the file records at `(c+1, r+1)`, NaN elsewhere. -/
+theorem image_correct {β} (size : Option (Int × Int)) (file : List Spectrum) (shape : Nat × Nat)
+    (f : Spectrum → β)
+    (hsz : (imageSize size (spectraDict file)).bind shapeOf = some shape)
+    (hdom : InDomain shape (spectraDict file)) :
+    ∃ img, image size f (spectraDict file) = some (shape, img) ∧
+      ∀ r c, img r c = (specAt file r c).map f := by
+  obtain ⟨img, hp, hpix⟩ := placement_in_domain shape f (spectraDict file) hdom
+  refine ⟨img, image_eq_some hsz hp, fun r c => ?_⟩
+  rw [hpix r c, specAt_spectraDict]
+
+/-- a spectrum found at a pixel is a spectrum of the file, recorded at that pixel's position -/
+theorem specAt_pos (file : List Spectrum) (r c : Nat) (s : Spectrum) (h : specAt file r c = some s) :
+    s ∈ file ∧ s.y = r + 1 ∧ s.x = c + 1 := by
+  have hm := List.mem_of_find?_eq_some h
+  have hp := List.find?_some h
+  simp only [Bool.and_eq_true, beq_iff_eq] at hp
+  exact ⟨by simpa using hm, hp.1, hp.2⟩
+
+/-- `extract_masses` on a file: shape `(Y, X)`; at `[y-1][x-1]` the spectrum's own window sums
+(the specification `windowSum`, window by window), NaN where no spectrum was recorded.
+Hypotheses: positions inside the image, strictly increasing m/z, equal lengths. -/
+theorem extract_image_correct (size : Option (Int × Int)) (file : List Spectrum) (shape : Nat × Nat)
+    (masses : List Rat) (w : Width)
+    (hsz : (imageSize size (spectraDict file)).bind shapeOf = some shape)
+    (hdom : InDomain shape (spectraDict file))
+    (hs : ∀ s ∈ file, Incr s.mz ∧ s.it.length = s.mz.length) :
+    ∃ img, extractImage size (spectraDict file) masses w = some (shape, img) ∧
+      ∀ r c, img r c = (specAt file r c).map (fun s => specSpectrum s.mz s.it (windows masses w)) := by
+  obtain ⟨img, hi, hpix⟩ := image_correct size file shape
+    (fun s => extractSpectrum s.mz s.it (windows masses w)) hsz hdom
+  refine ⟨img, hi, fun r c => ?_⟩
+  rw [hpix r c]
+  cases h : specAt file r c with
   | none => rfl
   | some s =>
-    have hm : s ∈ specs := by
-      have := List.mem_of_find?_eq_some h
-      simpa using this
+    have hm := (specAt_pos file r c s h).1
     simp only [Option.map_some]
     rw [extract_correct _ _ _ (hs s hm).1 (hs s hm).2]
 
-/-- a position is found by `lastAt` exactly at its own pixel (positions are 1-based) -/
-theorem lastAt_pos (specs : List Spectrum) (r c : Nat) (s : Spectrum) (h : lastAt specs r c = some s)
-    (hx : 1 ≤ s.x) (hy : 1 ≤ s.y) : s ∈ specs ∧ s.y = r + 1 ∧ s.x = c + 1 := by
-  have hm := List.mem_of_find?_eq_some h
-  have hp := List.find?_some h
-  simp only [decide_eq_true_eq] at hp
-  exact ⟨by simpa using hm, by omega, by omega⟩
+example : let file : List Spectrum := [⟨2, 1, none, [100, 200], [1, 2]⟩, ⟨1, 2, some 7, [150], [4]⟩]
+    (imageSize (some (2, 2)) (spectraDict file)).bind shapeOf = some (2, 2) ∧
+    InDomain (2, 2) (spectraDict file) ∧ (∀ s ∈ file, Incr s.mz ∧ s.it.length = s.mz.length) ∧
+    (extractImage (some (2, 2)) (spectraDict file) [150, 400] (.mz 100)).map (fun r => tabulate r.1 r.2)
+      = some [[none, some [1, 0]], [some [4, 0], none]] := by
+  refine ⟨by decide +kernel, by rw [← inDomainB_iff]; decide +kernel, ?_, by decide +kernel⟩
+  intro s hs
+  simp only [List.mem_cons, List.not_mem_nil, or_false] at hs
+  rcases hs with rfl | rfl
+  · exact ⟨by simp only [Incr]; norm_num, rfl⟩
+  · exact ⟨by simp only [Incr], rfl⟩
 
-/-- TIC image: the stored total ion current, or the summed intensities when it is absent, at
-`[y-1][x-1]`; NaN where no spectrum was recorded. -/
-theorem tic_spec (specs : List Spectrum) (r c : Nat) :
-    ticImage specs r c
-      = (lastAt specs r c).map (fun s => match s.tic with | some t => t | none => s.it.sum) := by
-  unfold ticImage
-  rw [placement]
-  unfold specImage
-  cases lastAt specs r c with
+/-- TIC image (corollary of `image_correct`): the stored total ion current, or the summed
+intensities when it is absent, at `[y-1][x-1]`; NaN where no spectrum was recorded. -/
+theorem tic_spec (size : Option (Int × Int)) (file : List Spectrum) (shape : Nat × Nat)
+    (hsz : (imageSize size (spectraDict file)).bind shapeOf = some shape)
+    (hdom : InDomain shape (spectraDict file)) :
+    ∃ img, ticImage size (spectraDict file) = some (shape, img) ∧
+      ∀ r c, img r c = (specAt file r c).map (fun s => match s.tic with
+                                                       | some t => t
+                                                       | none => s.it.sum) := by
+  obtain ⟨img, hi, hpix⟩ := image_correct size file shape ticOf hsz hdom
+  refine ⟨img, hi, fun r c => ?_⟩
+  rw [hpix r c]
+  cases specAt file r c with
   | none => rfl
   | some s => simp only [Option.map_some, ticOf]; cases s.tic <;> rfl
 
-/-- image size fallback: without a size in the scan settings the image is `(max x, max y)`, which
-bounds every recorded position (so every spectrum has a pixel) and is attained. -/
-theorem image_size_fallback (specs : List Spectrum) (hne : specs ≠ []) :
-    (∀ s ∈ specs, s.x ≤ (imageSize none specs).1 ∧ s.y ≤ (imageSize none specs).2) ∧
-    (∃ s ∈ specs, s.x = (imageSize none specs).1) ∧ (∃ s ∈ specs, s.y = (imageSize none specs).2) := by
-  simp only [imageSize]
-  refine ⟨fun s hs => ⟨le_maxList _ _ (List.mem_map.mpr ⟨s, hs, rfl⟩), le_maxList _ _ (List.mem_map.mpr ⟨s, hs, rfl⟩)⟩, ?_, ?_⟩
-  · obtain ⟨s, hs, h⟩ := List.mem_map.mp (maxList_mem (specs.map (·.x)) (by simp [hne]))
-    exact ⟨s, hs, h⟩
-  · obtain ⟨s, hs, h⟩ := List.mem_map.mp (maxList_mem (specs.map (·.y)) (by simp [hne]))
-    exact ⟨s, hs, h⟩
+/-- a size stated in the scan settings (two naturals) is the shape of the image -/
+theorem image_size_stated (X Y : Nat) (d : List Spectrum) :
+    (imageSize (some ((X : Int), (Y : Int))) d).bind shapeOf = some (Y, X) := by
+  simp [imageSize, shapeOf]
+
+/-- image size fallback: without a size in the scan settings the image is `(max x, max y)` over
+the dict, which bounds every recorded position and is attained; with positions `≥ 1` every spectrum
+therefore has its pixel (`InDomain`). -/
+theorem image_size_fallback (d : List Spectrum) (hne : d ≠ []) (hpos : ∀ s ∈ d, 1 ≤ s.x ∧ 1 ≤ s.y) :
+    ∃ shape, (imageSize none d).bind shapeOf = some shape ∧ InDomain shape d ∧
+      (∃ s ∈ d, s.x = shape.2) ∧ (∃ s ∈ d, s.y = shape.1) := by
+  have hx : ∀ s ∈ d, s.x ≤ maxInt (d.map (·.x)) := fun s hs => le_maxInt _ _ (List.mem_map.mpr ⟨s, hs, rfl⟩)
+  have hy : ∀ s ∈ d, s.y ≤ maxInt (d.map (·.y)) := fun s hs => le_maxInt _ _ (List.mem_map.mpr ⟨s, hs, rfl⟩)
+  obtain ⟨sx, hsx, hxe⟩ := List.mem_map.mp (maxInt_mem (d.map (·.x)) (by simp [hne]))
+  obtain ⟨sy, hsy, hye⟩ := List.mem_map.mp (maxInt_mem (d.map (·.y)) (by simp [hne]))
+  have h1 : 1 ≤ maxInt (d.map (·.x)) := by rw [← hxe]; exact (hpos sx hsx).1
+  have h2 : 1 ≤ maxInt (d.map (·.y)) := by rw [← hye]; exact (hpos sy hsy).2
+  have hemp : d.isEmpty = false := by cases d <;> simp_all
+  refine ⟨((maxInt (d.map (·.y))).toNat, (maxInt (d.map (·.x))).toNat), ?_, ?_, ⟨sx, hsx, ?_⟩, ⟨sy, hsy, ?_⟩⟩
+  · have e : imageSize none d = some (maxInt (d.map (·.x)), maxInt (d.map (·.y))) := by
+      simp [imageSize, hemp]
+    rw [e, Option.bind_some]
+    unfold shapeOf
+    rw [if_pos ⟨by simp only []; omega, by simp only []; omega⟩]
+  · intro s hs
+    have := hx s hs; have := hy s hs; have := hpos s hs
+    refine ⟨by omega, by simp only []; omega, by omega, by simp only []; omega⟩
+  · simp only []; omega
+  · simp only []; omega
+
+example : let d : List Spectrum := [⟨2, 3, none, [100], [1]⟩, ⟨1, 2, some 7, [150], [4]⟩]
+    d ≠ [] ∧ (∀ s ∈ d, 1 ≤ s.x ∧ 1 ≤ s.y) ∧ (imageSize none d).bind shapeOf = some (3, 2) := by
+  refine ⟨by simp, ?_, by decide +kernel⟩
+  intro s hs
+  simp only [List.mem_cons, List.not_mem_nil, or_false] at hs
+  rcases hs with rfl | rfl <;> simp
+
+/-! ## mass range -/
 
 /-- `mass_range`: for ≥ 1 spectra, each non-empty and strictly increasing, the running min/max of
 first/last elements bounds every recorded m/z, and both bounds are recorded m/z values. -/
 theorem mass_range_bounds (specs : List Spectrum) (h0 : specs ≠ [])
     (hne : ∀ s ∈ specs, s.mz ≠ []) (hs : ∀ s ∈ specs, Incr s.mz) :
-    ∃ lo hi, massRange specs = (some lo, some hi) ∧
+    ∃ lo hi, massRange specs = some (some lo, some hi) ∧
       (∀ s ∈ specs, ∀ m ∈ s.mz, lo ≤ m ∧ m ≤ hi) ∧
       (∃ s ∈ specs, lo ∈ s.mz) ∧ (∃ s ∈ specs, hi ∈ s.mz) := by
   rcases massRange_inv specs hne hs with ⟨h, _⟩ | h
@@ -132,11 +396,13 @@ theorem mass_range_bounds (specs : List Spectrum) (h0 : specs ≠ [])
   · exact h
 
 example : let specs : List Spectrum := [⟨1, 1, none, [100, 200], [1, 2]⟩, ⟨2, 1, some 7, [150], [4]⟩]
-    specs ≠ [] ∧ (∀ s ∈ specs, s.mz ≠ []) ∧ (∀ s ∈ specs, Incr s.mz) ∧ massRange specs = (some 100, some 200) := by
+    specs ≠ [] ∧ (∀ s ∈ specs, s.mz ≠ []) ∧ (∀ s ∈ specs, Incr s.mz) ∧ massRange specs = some (some 100, some 200) := by
   refine ⟨by simp, by simp, ?_, by decide +kernel⟩
   intro s hs
   simp only [List.mem_cons, List.not_mem_nil, or_false] at hs
   rcases hs with rfl | rfl <;> simp only [Incr] <;> norm_num
+
+/-! ## binning -/
 
 /-- Specification of binning: with strictly increasing bin edges `b₀ < b₁ < …`, width `w ≥ 0`, and
 every m/z of the pixel inside `[b₀, b_last + w)`, the bins `[b_k, b_{k+1})` (last: `[b_last,
@@ -201,6 +467,114 @@ example : Incr [100, 201/2, 405/4, 102] ∧ dense [100, 201/2, 405/4, 102] [100,
   simp at hl; subst hl
   simp only [List.mem_cons, List.not_mem_nil, or_false] at hx
   rcases hx with rfl | rfl | rfl | rfl <;> norm_num
+
+/-- How small the class `dense` is for the edges `arange(min, max + w, w)` that `binned_masses`
+uses: a pixel is in it only if it contains the image's HIGHEST m/z itself, `(max − min)/w` is an
+exact natural number (the last edge is then `max`), and every pair of neighbouring edges has one of
+the pixel's peaks between them.  (With the default `w = 0.1` on measured float data the second
+condition alone fails for essentially every file: the class is then empty and every pixel falls
+under the known finding.) -/
+theorem dense_requires (mz : List Rat) (lo hi w : Rat) (hw : 0 < w) (h : lo ≤ hi)
+    (hb : ∀ m ∈ mz, m ≤ hi) (hd : dense mz (arange lo (hi + w) w) = true) :
+    hi ∈ mz ∧
+    (∃ n : Nat, hi = lo + (n : Rat) * w ∧ (arange lo (hi + w) w).length = n + 1) ∧
+    ∀ a b, [a, b] <:+: arange lo (hi + w) w → ∃ m ∈ mz, a ≤ m ∧ m < b := by
+  obtain ⟨n, hlast, hlen, hge, _⟩ := arange_getLast lo hi w hw h
+  unfold dense at hd
+  have hl : ((arange lo (hi + w) w).map (ssLeft mz)).getLast? = some (ssLeft mz (lo + (n : Rat) * w)) := by
+    rw [List.getLast?_map, hlast]; rfl
+  obtain ⟨m, hm, hle⟩ := ssLeft_lt_length (denseIdx_last_lt _ _ hd _ hl)
+  have hmhi := hb m hm
+  have heq : m = hi := le_antisymm hmhi (le_trans hge hle)
+  refine ⟨heq ▸ hm, ⟨n, ?_, hlen⟩, ?_⟩
+  · rw [← heq]; exact le_antisymm (by linarith) hle
+  · intro a b hab
+    exact ssLeft_lt_ssLeft (denseIdx_chain _ mz _ hd a b hab)
+
+example : (0 : Rat) < 1 ∧ (100 : Rat) ≤ 102 ∧ (∀ m ∈ ([100, 201/2, 405/4, 102] : List Rat), m ≤ 102) ∧
+    arange 100 (102 + 1) 1 = [100, 101, 102] ∧ dense [100, 201/2, 405/4, 102] (arange 100 (102 + 1) 1) = true := by
+  refine ⟨by norm_num, by norm_num, ?_, by decide +kernel, by decide +kernel⟩
+  intro x hx
+  simp only [List.mem_cons, List.not_mem_nil, or_false] at hx
+  rcases hx with rfl | rfl | rfl | rfl <;> norm_num
+
+/-- `binned_masses` on a whole file (image level).  Hypotheses: width `> 0`, at least one spectrum,
+positions inside the image, every spectrum non-empty with strictly increasing m/z and as many
+intensities.  Then `mass_range` is `(lo, hi)`, the edges are `arange(lo, hi + w, w)`, the call
+returns them with the shape, and for every pixel `[r][c]`:
+* no spectrum recorded there: NaN;
+* spectrum `s` recorded there: the SPECIFIED bins of `s` (`binSpec`) add up to its total intensity
+  and count each of its peaks in exactly one bin; the pixel holds the mechanism's value
+  `binSpectrum`; and when the pixel is in the class `dense` (see `dense_requires` for how little
+  that is) the mechanism's value IS the specified one.
+Outside `dense` the mechanism's value is wrong (`bins_current_wrong`; known finding). -/
+theorem binned_image (size : Option (Int × Int)) (file : List Spectrum) (shape : Nat × Nat) (w : Rat)
+    (hw : 0 < w) (hne : file ≠ [])
+    (hsz : (imageSize size (spectraDict file)).bind shapeOf = some shape)
+    (hdom : InDomain shape (spectraDict file))
+    (hs : ∀ s ∈ file, s.mz ≠ [] ∧ Incr s.mz ∧ s.it.length = s.mz.length) :
+    ∃ lo hi img, massRange (spectraDict file) = some (some lo, some hi) ∧ lo ≤ hi ∧
+      binImage size (spectraDict file) w = some (arange lo (hi + w) w, shape, img) ∧
+      ∀ r c, (specAt file r c = none → img r c = none) ∧
+        ∀ s, specAt file r c = some s →
+          (binSpec s.mz s.it (arange lo (hi + w) w) w).sum = s.it.sum ∧
+          (∀ m ∈ s.mz, (binSpec [m] [1] (arange lo (hi + w) w) w).sum = 1) ∧
+          img r c = some (binSpectrum s.mz s.it (arange lo (hi + w) w)) ∧
+          (dense s.mz (arange lo (hi + w) w) = true →
+            img r c = some (binSpec s.mz s.it (arange lo (hi + w) w) w)) := by
+  have hmem : ∀ s ∈ spectraDict file, s ∈ file := fun s hs => mem_spectraDict hs
+  obtain ⟨lo, hi, hmr, hbnd, ⟨_, _, _⟩, ⟨sh, hsh, hhi⟩⟩ := mass_range_bounds (spectraDict file)
+    (spectraDict_ne_nil hne) (fun s h => (hs s (hmem s h)).1) (fun s h => (hs s (hmem s h)).2.1)
+  have hle : lo ≤ hi := (hbnd sh hsh hi hhi).1
+  obtain ⟨img, himg, hpix⟩ := image_correct size file shape
+    (fun s => binSpectrum s.mz s.it (arange lo (hi + w) w)) hsz hdom
+  refine ⟨lo, hi, img, hmr, hle, ?_, ?_⟩
+  · simp [binImage, binEdges, hmr, himg]
+  · intro r c
+    refine ⟨fun hn => by rw [hpix r c, hn]; rfl, ?_⟩
+    intro s hsat
+    have hsd : s ∈ spectraDict file := by
+      have := (specAt_pos (spectraDict file) r c s (by rw [specAt_spectraDict]; exact hsat)).1
+      exact this
+    have hsf := hs s (hmem s hsd)
+    have hb := hbnd s hsd
+    obtain ⟨hincr, hhead, hcov⟩ := bins_cover lo hi w hw hle
+    have hval : img r c = some (binSpectrum s.mz s.it (arange lo (hi + w) w)) := by
+      rw [hpix r c, hsat]; rfl
+    have htop : ∀ l, (arange lo (hi + w) w).getLast? = some l → ∀ x ∈ s.mz, x < l + w :=
+      fun l hl x hx => (hcov l hl x (hb x hx).1 (hb x hx).2).2
+    refine ⟨?_, ?_, hval, fun hd => ?_⟩
+    · generalize arange lo (hi + w) w = bins at hincr hhead hcov
+      cases bins with
+      | nil => simp at hhead
+      | cons b rest =>
+        simp only [List.head?_cons, Option.some.injEq] at hhead
+        subst hhead
+        exact bins_partition s.mz s.it b rest w (le_of_lt hw) hincr hsf.2.2
+          (fun l hl x hx => hcov l hl x (hb x hx).1 (hb x hx).2)
+    · intro m hm
+      generalize arange lo (hi + w) w = bins at hincr hhead hcov
+      cases bins with
+      | nil => simp at hhead
+      | cons b rest =>
+        simp only [List.head?_cons, Option.some.injEq] at hhead
+        subst hhead
+        exact peak_in_one_bin m b rest w (le_of_lt hw) hincr
+          (fun l hl => hcov l hl m (hb m hm).1 (hb m hm).2)
+    · rw [hval, bins_partition_partial s.mz s.it _ w hsf.2.1 hsf.2.2 hd htop]
+
+example : let file : List Spectrum := [⟨1, 1, none, [100, 201/2, 405/4, 102], [1, 2, 4, 8]⟩, ⟨2, 1, some 7, [101], [4]⟩]
+    file ≠ [] ∧ (imageSize (some (2, 1)) (spectraDict file)).bind shapeOf = some (1, 2) ∧
+    InDomain (1, 2) (spectraDict file) ∧
+    (∀ s ∈ file, s.mz ≠ [] ∧ Incr s.mz ∧ s.it.length = s.mz.length) ∧
+    (binImage (some (2, 1)) (spectraDict file) 1).map (fun r => (r.1, tabulate r.2.1 r.2.2))
+      = some ([100, 101, 102], [[some [3, 4, 8], some [4, 4, 4]]]) := by
+  refine ⟨by simp, by decide +kernel, by rw [← inDomainB_iff]; decide +kernel, ?_, by decide +kernel⟩
+  intro s hs
+  simp only [List.mem_cons, List.not_mem_nil, or_false] at hs
+  rcases hs with rfl | rfl
+  · refine ⟨by simp, by simp only [Incr]; norm_num, rfl⟩
+  · refine ⟨by simp, by simp only [Incr], rfl⟩
 
 /-- the unrepaired mechanism on the documented input: `mz = [100,200,300,400]`, `it = [1,2,4,8]`,
 bins `[100, 250, 260, 400, 550]` (width 150 irrelevant here): the empty bin `[250,260)` reports the
